@@ -390,7 +390,7 @@ func judgeInbound(w *world) {
 			if _, has := failed[rp.Tag]; !has {
 				failed[rp.Tag] = "rpc-" + rp.Outcome
 			}
-		case "lossresp", "ctx", "remote-error":
+		case "lossresp", "ctx", "ctx-faulted", "remote-error":
 			uncertain[rp.Tag] = true
 		}
 	}
